@@ -233,6 +233,11 @@ func (s *Cron) Add(j *Job) error {
 		return err
 	}
 
+	// A new job has no time entry yet.  TId is ours to write (it
+	// links the two buckets); a value decoded from the request would
+	// make update delete some other job's time entry.
+	j.TId = ""
+
 	f, err := s.update(j)
 	if err != nil {
 		log.Printf("Cron.Add update error: %v", err)
